@@ -9,16 +9,26 @@ variable {α : Type}
 
 /-! ## Shrink -/
 
-theorem shrink_spec (zero : α) (s : List α) (cap n : Int) (hc : (s.length : Int) ≤ cap) (hn : 0 ≤ n) :
+seal Juniper.Facts.wrap64
+
+open Juniper.Facts in
+/-- `Shrink(s, n)`, `n ≥ 0`, in 64-bit arithmetic, for EVERY `int` `n` and every capacity an `int` can
+hold: `cap(s)-len(s)` and — on the reallocating path — `len(s)+n` never leave the `int64` range. -/
+theorem shrink_spec (zero : α) (s : List α) (cap n : Int) (hc : (s.length : Int) ≤ cap) (hn : 0 ≤ n)
+    (hcap : cap ≤ 9223372036854775807) :
     ∃ c re, shrink zero s cap n = some (s, c, re) ∧ c ≤ s.length + n ∧ (s.length : Int) ≤ c ∧
       (cap ≤ s.length + n → c = cap ∧ re = false) ∧ (s.length + n < cap → c = s.length + n ∧ re = true) := by
   unfold shrink
-  simp only [shrinkGuard, shrinkMake, shrinkRetHi]
-  by_cases hg : cap > (s.length : Int) + n
-  · have hm : ¬ ((s.length : Int) + n < 0) := by omega
+  have eg : shrinkGuard cap (s.length : Int) n = decide (cap - (s.length : Int) > n) := by
+    simp only [shrinkGuard]; rw [wrap64_of_range (by omega) (by omega)]
+  simp only [eg, shrinkRetHi]
+  by_cases hg : cap - (s.length : Int) > n
+  · have em : shrinkMake (s.length : Int) n = (s.length : Int) + n := by
+      simp only [shrinkMake]; rw [wrap64_of_range (by omega) (by omega)]
+    have hm : ¬ ((s.length : Int) + n < 0) := by omega
     have hok : sliceOk 0 (s.length : Int) ((s.length : Int) + n) = true := by
       rw [sliceOk_iff]; omega
-    simp only [hg, decide_true, ↓reduceIte, hm, hok, Bool.not_true, Bool.false_eq_true]
+    simp only [hg, decide_true, ↓reduceIte, em, hm, hok, Bool.not_true, Bool.false_eq_true]
     have hng : ¬ (cap ≤ (s.length : Int) + n) := by omega
     refine ⟨(s.length : Int) + n, true, ?_, by omega, by omega, (by intro h; first | exact absurd h hng | exact h.elim), fun _ => ⟨rfl, rfl⟩⟩
     have e1 : ((s.length : Int) + n).toNat = s.length + n.toNat := by omega
@@ -31,12 +41,18 @@ theorem shrink_spec (zero : α) (s : List α) (cap n : Int) (hc : (s.length : In
     have hng : ¬ ((s.length : Int) + n < cap) := by omega
     exact ⟨cap, false, rfl, by omega, by omega, fun _ => ⟨rfl, rfl⟩, (by intro h; first | exact absurd h hng | exact h.elim)⟩
 
-theorem shrink_negative_panics (zero : α) (s : List α) (cap n : Int) (hc : (s.length : Int) ≤ cap) (hn : n < 0) :
+open Juniper.Facts in
+/-- a negative `n` (every negative `int`, `MinInt64` included) makes `Shrink` panic: `make` with a
+negative length, or `x2[:len(s)]` beyond the new slice's capacity -/
+theorem shrink_negative_panics (zero : α) (s : List α) (cap n : Int) (hc : (s.length : Int) ≤ cap) (hn : n < 0)
+    (hcap : cap ≤ 9223372036854775807) (hn' : -9223372036854775808 ≤ n) :
     shrink zero s cap n = none := by
   unfold shrink
-  simp only [shrinkGuard, shrinkMake, shrinkRetHi]
-  have hg : cap > (s.length : Int) + n := by omega
-  simp only [hg, decide_true, ↓reduceIte]
+  have eg : shrinkGuard cap (s.length : Int) n = true := by
+    simp only [shrinkGuard]; rw [wrap64_of_range (by omega) (by omega)]; simp; omega
+  have em : shrinkMake (s.length : Int) n = (s.length : Int) + n := by
+    simp only [shrinkMake]; rw [wrap64_of_range (by omega) (by omega)]
+  simp only [eg, em, shrinkRetHi, ↓reduceIte]
   by_cases hm : (s.length : Int) + n < 0
   · simp [hm]
   · have hok : sliceOk 0 (s.length : Int) ((s.length : Int) + n) = false := by
@@ -154,7 +170,7 @@ def hasStack (e : Err) : Bool := e.chain.any Err.isStack
 
 theorem chain_ne_nil (e : Err) : e.chain ≠ [] := by cases e <;> simp [Err.chain]
 
-theorem as_stack_isSome (e : Err) (h : wsHasAsMethod = false := by decide) :
+theorem as_stack_isSome (e : Err) (h : wsHasAsMethod = false) :
     (e.as .stackTy).isSome = hasStack e := by
   unfold Err.as hasStack
   simp only [h, Bool.false_eq_true, ↓reduceIte]
@@ -168,7 +184,7 @@ theorem as_stack_isSome (e : Err) (h : wsHasAsMethod = false := by decide) :
     refine ⟨x, hx, ?_⟩
     cases x <;> simp_all [Err.ty, Err.isStack]
 
-theorem wsDetects_eq (e : Err) (hd : wsDetect = "as" := by decide) (h : wsHasAsMethod = false := by decide) :
+theorem wsDetects_eq (e : Err) (hd : wsDetect = "as") (h : wsHasAsMethod = false) :
     wsDetects e = hasStack e := by
   unfold wsDetects
   simp only [hd, ↓reduceIte]
@@ -178,9 +194,9 @@ theorem hasStack_stack (e : Err) : hasStack (.stack e) = true := by
   simp [hasStack, Err.chain, Err.isStack]
 
 theorem withStack_some (e : Err)
-    (hd : wsDetect = "as" := by decide) (h : wsHasAsMethod = false := by decide)
-    (h1 : wsNilGuard false = false := by decide) (h2 : wsDetectedReturnsErr = true := by decide)
-    (h3 : wsWrapsErr = true := by decide) :
+    (hd : wsDetect = "as") (h : wsHasAsMethod = false)
+    (h1 : wsNilGuard false = false) (h2 : wsDetectedReturnsErr = true)
+    (h3 : wsWrapsErr = true) :
     withStack (some e) = if hasStack e then some e else some (.stack e) := by
   simp only [withStack, wsDetects_eq e hd h, h1, h2, h3, Bool.false_and, Bool.and_true, Bool.false_eq_true, ↓reduceIte]
 
